@@ -310,11 +310,34 @@ TAG_NAME_FINDING = 'roundtrip:tag-name-character-outside-letters-digits-dash-col
 def tag_has_extra_name_char(left):
     """Does the last tag of the left context spell a tag / attribute name (outside quoted values) with one of the
     characters HTML allows in names but is_html.is_ident() does not accept?"""
+    left = re.sub(r'"[^"]*"|\'[^\']*\'', '', left)
     i = left.rfind('<')
     if i < 0:
         return False
-    seg = re.sub(r'"[^"]*"|\'[^\']*\'', '', left[i:])
+    seg = left[i:]
     return any(c in U.TAG_EXTRA_NAME_CHARS for c in seg)
+
+
+VALUE_NESTING_FINDING = 'roundtrip:unquoted-value-brackets-not-properly-nested'
+VALUE_SLASH_FINDING = 'roundtrip:unquoted-value-slash-before-name-characters'
+
+
+def unquoted_value_class(left):
+    """The listed finding class of an unquoted attribute value in the last tag of the left context, or None."""
+    left = re.sub(r'"[^"]*"|\'[^\']*\'', '""', left)
+    i = left.rfind('<')
+    if i < 0:
+        return None
+    seg = left[i:]
+    if seg.endswith('>'):
+        seg = seg[:-1]
+    for m in re.finditer(r'=([^ \t\n\r\f"\'=<>`]+)', seg):
+        v = m.group(1)
+        if not V.properly_nested(v):
+            return VALUE_NESTING_FINDING
+        if V.slash_before_name_end(v) or v.endswith('/'):
+            return VALUE_SLASH_FINDING
+    return None
 
 
 def rt_failure(ctx, rt, r):
@@ -331,7 +354,11 @@ def rt_failure(ctx, rt, r):
         return None
     markup = U.full_opts(o)['type'] == 'markup'
     why = U.grammar_reject(rt.abbr, markup)
-    if tag_has_extra_name_char(rt.left) and not (why in U.FINDING_KEYS):
+    vclass = unquoted_value_class(rt.left)
+    if vclass and not (why in U.FINDING_KEYS):
+        # the complete tag to the left has an unquoted attribute value of a listed class
+        key = vclass
+    elif tag_has_extra_name_char(rt.left) and not (why in U.FINDING_KEYS):
         # the complete tag to the left spells a name with `_`, `.`, `@` or `#`: listed limitation of the tag heuristic
         key = TAG_NAME_FINDING
     elif why in U.FINDING_KEYS and U.valid_abbreviation(rt.abbr, markup):
